@@ -568,3 +568,64 @@ def slot_counts(roots, objs):
 
     rec(roots)
     return [cnt[id(o)] for o in objs]
+
+
+def run_parallel(worker, jobs):
+    """worker(job) for every job, in a pool of forked processes (the modules
+    set node sizes on the classes, so every job must set what it needs itself);
+    results come back in job order, so the outcome does not depend on timing.
+    VERIF_JOBS=1 runs in-process."""
+    import concurrent.futures as cf
+    import multiprocessing as mp
+    n = int(os.environ.get("VERIF_JOBS") or min(16, os.cpu_count() or 1))
+    jobs = list(jobs)
+    if n <= 1 or len(jobs) <= 1:
+        return [worker(j) for j in jobs]
+    with cf.ProcessPoolExecutor(max_workers=min(n, len(jobs)), mp_context=mp.get_context("fork")) as ex:
+        return list(ex.map(worker, jobs))
+
+
+_tick_fd = None
+
+
+def tick():
+    """Progress mark of a guarded() call (one per operation started)."""
+    if _tick_fd is not None:
+        os.write(_tick_fd, b".")
+
+
+def guarded(fn, *args):
+    """fn(*args) in a forked child, so that a crash of the code under test
+    (segmentation fault, abort) becomes an observation instead of killing the
+    stand-in.  -> ('ok', result) | ('crash', signal number, ticks seen)."""
+    import pickle
+    global _tick_fd
+    r, w = os.pipe()
+    pid = os.fork()
+    if pid == 0:
+        os.close(r)
+        _tick_fd = w
+        try:
+            data = pickle.dumps(("ok", fn(*args)))
+        except BaseException as e:      # reported to the parent, which re-raises
+            data = pickle.dumps(("exc", "%s: %s" % (type(e).__name__, e)))
+        data = b"\n" + data
+        while data:
+            data = data[os.write(w, data):]
+        os._exit(0)
+    os.close(w)
+    chunks = []
+    while True:
+        c = os.read(r, 1 << 16)
+        if not c:
+            break
+        chunks.append(c)
+    os.close(r)
+    status = os.waitpid(pid, 0)[1]
+    ticks, _, payload = b"".join(chunks).partition(b"\n")
+    if os.WIFSIGNALED(status) or not payload:
+        return ("crash", os.WTERMSIG(status) if os.WIFSIGNALED(status) else 0, len(ticks))
+    res = pickle.loads(payload)
+    if res[0] == "exc":
+        raise RuntimeError("guarded call failed: " + res[1])
+    return res
